@@ -374,7 +374,7 @@ def _local_handlers(n: ast.AST) -> set[str]:
     return out
 
 
-CATCHES_VALUEERROR = {"ValueError", "Exception", "BaseException", "BTClibValueError"}
+CATCHES_VALUEERROR = {"ValueError", "Exception", "BaseException"}  # a BTClibValueError handler does not catch the bindings' plain ValueError
 
 # bindings call sites with no ValueError handler on any path, read one by one
 NO_HANDLER = {
